@@ -916,6 +916,13 @@ class Hist:
                                            'first_evaluation': None if first is None else [unhex(v) for v in first]}))
         elif kind == 'load':
             self.add('Observe', None, label)
+            if rec.get('ok') and self.prev_file is not None:
+                ref = reference_load(self.sess['names'], self.sess['init'], self.prev_file)
+                if ref is not None and ref != rec.get('init'):
+                    self.viol.append(('C15/parse/restart-not-from-file',
+                                      'after reading the iteration file the starting values are not the saved values',
+                                      {'where': label, 'file': self.prev_file,
+                                       'starting_values': [unhex(v) for v in rec.get('init')]}))
         elif kind == 'delete_file':
             # the user removes the file (oracle-only sessions: this operation is not in the model)
             self.unmodelled = True
@@ -947,10 +954,21 @@ def dy(rng, lo=-4, hi=4, bits=3):
             return v
 
 
+def zeros(rng, x, p=0.3):
+    """with probability p, one or more coordinates become exactly 0.0 or -0.0 (a parameter sitting on a
+    bound 0): the model defaults are never 0, so a reader that skips falsy values is exposed"""
+    x = list(x)
+    if rng.random() < p:
+        for i in rng.sample(range(len(x)), rng.randint(1, len(x))):
+            x[i] = rng.choice([0.0, 0.0, -0.0])
+    return x
+
+
 def gen_session(rng, long=False, with_delete=False):
     k = rng.choice([1, 2, 2, 3])
     names = sorted(rng.sample(NAME_POOL, k))
-    targets = [dy(rng) for _ in range(k)]
+    # an optimum with coordinates exactly 0: estimate() ends (and saves) there
+    targets = zeros(rng, [dy(rng) for _ in range(k)], 0.35)
     init = [dy(rng) for _ in range(k)]
     weights = [[rng.choice([0.5, 1.0, 2.0] if j == 0 else [0.5, 1.0, 1.5, 2.0]) for _ in range(3)] for j in range(k)]
     sess = {'names': names, 'targets': [fhex(t) for t in targets], 'init': [fhex(v) for v in init],
@@ -958,7 +976,7 @@ def gen_session(rng, long=False, with_delete=False):
             'seed': rng.randint(0, 10 ** 6), 'bootstrap_samples': rng.choice([1, 2, 3]), 'div': True}
     pre = None
     if rng.random() < 0.4:
-        x0 = [dy(rng) for _ in range(k)]
+        x0 = zeros(rng, [dy(rng) for _ in range(k)], 0.4)
         pre = ''.join(f'{n} = {txt(fhex(v))}\n' for n, v in zip(names, x0))
     sess['pre_file'] = pre
     ops = [{'op': 'new'}]
@@ -989,6 +1007,7 @@ def gen_session(rng, long=False, with_delete=False):
             else:
                 x = [dy(rng, bits=10) * rng.choice([1e-7, 1.0, 1e9, 1 / 3]) for _ in range(k)]
             if len(x) == k and all(math.isfinite(v) for v in x) and x[0] != 0.1:
+                x = zeros(rng, x, 0.15)
                 last = x
             ops.append({'op': 'eval', 'x': [fhex(v) for v in x]})
         elif r < 0.74:
@@ -1114,7 +1133,7 @@ def gen_parse_case(rng):
     ok = True
     for _ in range(rng.randint(0, 5)):
         n = rng.choice(pool)
-        v = rng.choice([dy(rng), dy(rng, bits=10) * 1e-7, 1e22, float('inf'), -0.0, 123456.789, 1 / 3])
+        v = rng.choice([dy(rng), dy(rng, bits=10) * 1e-7, 1e22, float('inf'), -0.0, 0.0, 0.0, 123456.789, 1 / 3])
         t = txt(fhex(v))
         r = rng.random()
         if r < 0.55:
@@ -1140,10 +1159,21 @@ def gen_parse_case(rng):
     return sess, content
 
 
-def py_expect_load(names, init, content):
-    """what the property asks of a reader of `name = value` lines (harness-side reference, used only to
-    classify cases; the verdict comes from the model)"""
-    return None
+def reference_load(names, init, content):
+    """the property, for a reader of `name = value` lines: EVERY name present in the file overrides the
+    starting value, whatever the value (0.0 and -0.0 included); other names keep their default.
+    Returns the list of hex doubles, or None when some line is not of that form."""
+    d = {}
+    try:
+        lines = content.split('\n')
+        if lines[-1] == '':
+            lines.pop()
+        for l in lines:
+            a, b = l.rsplit('=', 1)
+            d[a.strip()] = float(b)
+    except Exception:  # noqa
+        return None
+    return [fhex(d[n]) if n in d else i for n, i in zip(names, init)]
 
 
 def stream_parse(ctx):
@@ -1185,6 +1215,13 @@ def stream_parse(ctx):
         if not rec['ok'] and rec['exc'] not in ('ValueError', 'IndexError'):
             ctx.violation('C15/parse/unexpected-exception', f'_load_saved_iteration raised {rec["exc"]}: {rec.get("msg")}',
                           {'mode': 'iter', 'session': sess})
+        ref = reference_load(sess['names'], sess['init'], c['content'])
+        if rec['ok'] and ref is not None and ref != rec['init']:
+            ctx.violation('C15/parse/restart-not-from-file',
+                          'after reading the iteration file the starting values are not the saved values',
+                          {'mode': 'iter', 'session': sess}, expected=[unhex(v) for v in ref],
+                          observed={'file': c['content'], 'starting_values': [unhex(v) for v in rec['init']]},
+                          how='./check C15 --replay <this file>')
         term = (f'({ccfg(sess)}, {cs(c["content"])}, {"true" if rec["ok"] else "false"}, {cvec(rec["init"])})')
         items.append((term, 1, sess, ['load'], 'load_case'))
     for m, r in zip(names, nres):
@@ -1205,14 +1242,14 @@ def stream_parse(ctx):
 def gen_crash_scenario(rng, use_estimate):
     k = rng.choice([2, 2, 3, 1])
     names = sorted(rng.sample(NAME_POOL, k))
-    targets = [dy(rng) for _ in range(k)]
+    targets = zeros(rng, [dy(rng) for _ in range(k)], 0.4)
     init = [dy(rng) for _ in range(k)]
     weights = [[rng.choice([0.5, 1.0, 2.0]) for _ in range(2)] for _ in range(k)]
     sess = {'names': names, 'targets': [fhex(t) for t in targets], 'init': [fhex(v) for v in init], 'weights': weights,
             'rows': 2, 'model': rng.choice(MODEL_POOL), 'save': True, 'seed': 1, 'bootstrap_samples': 1, 'div': True}
     pre = None
     if rng.random() < 0.5:
-        x0 = [dy(rng) for _ in range(k)]
+        x0 = zeros(rng, [dy(rng) for _ in range(k)], 0.4)
         pre = ''.join(f'{n} = {txt(fhex(v))}\n' for n, v in zip(names, x0))
     sess['pre_file'] = pre
     if use_estimate:
@@ -1224,7 +1261,7 @@ def gen_crash_scenario(rng, use_estimate):
             r = rng.random()
             if r < 0.6:
                 cur = [t + (b - t) * 0.5 for t, b in zip(targets, cur)]
-                x = cur
+                x = zeros(rng, cur, 0.2)
             elif r < 0.8:
                 x = [t + dy(rng, -8, 8) for t in targets]
             else:
